@@ -7,11 +7,19 @@
 //	line  <fn> <tn> <M> <D>       schedule.NewLineConf{From: fn/M, To: tn/M, Duration: D}
 //	step  <fn> <tn> <M> <st> <D>  schedule.NewStepConf{From, To, Step: st, Duration: D}
 //	once  <n>                     schedule.NewOnceConf{Times: n}
-//	conc  <G> <rounds> <one of the four kinds above>
+//	list  <k> <part> ... <part>   a list profile (`rps: [ {...}, {...} ]`): k parts, each one of the four kinds
+//	                              above written with its fields; built as the configuration hook does:
+//	                              schedule.NewCompositeConf{Nested: parts}
+//	conc  <G> <rounds> [meet] <one of the five kinds above>
 //	                              the sequential observation of the inner case, then, `rounds` times:
 //	                              a fresh schedule that nobody Start()s (the engine never does: the
 //	                              shared rps schedule starts itself inside the first Next) is drained by
-//	                              G goroutines released together by a spinning barrier
+//	                              G goroutines released together by a spinning barrier.
+//	                              `meet` (list profiles only): the first G calls of Next on the FIRST part
+//	                              wait for each other before they go on into the real part (an ordinary
+//	                              interleaving of G instances, made reproducible: when the first part is a
+//	                              pause all G consumers learn at the same time that it is over and hand the
+//	                              list over to the following parts together)
 //
 // Observation: "<Left() before start> <finish offset> <post> <n> <t0,t1,...|->" where the
 // t_k are the offsets (ns) from the Start instant of the tokens returned with ok=true, the
@@ -19,7 +27,7 @@
 // once exhausted ("left" otherwise) and three more Next calls return the same instant with
 // ok=false ("next" otherwise).
 //
-// conc appends four 0/1 flags (1 = held in every round) and a detail field ("-" when all hold):
+// conc appends five 0/1 flags (1 = held in every round) and a detail field ("-" when all hold):
 //
 //	same  the multiset of token instants of the round, taken relative to ONE start instant
 //	      s := reported finish - sequential finish offset, equals the sequential token offsets
@@ -28,6 +36,9 @@
 //	lo    s and every token instant are not before the instant read just before the barrier release
 //	hi    s is not after the earliest instant read by a goroutine right after its first Next returned
 //	      (the start instant is taken inside the first Next)
+//	exh   a goroutine that is told "exhausted" (ok=false) is told so at the profile's finish instant
+//	      s + finish offset, Left() read right after is 0, and its next two calls of Next answer the
+//	      same instant with ok=false (an exhausted profile stays exhausted; nothing is left behind)
 package main
 
 import (
@@ -49,9 +60,46 @@ import (
 
 const maxDrain = 3000000
 
+var arity = map[string]int{"const": 4, "line": 5, "step": 6, "once": 2}
+
+// parts of a list profile: f = <k> <part> ... <part>
+func buildParts(f []string) ([]core.Schedule, bool) {
+	if len(f) < 1 {
+		return nil, false
+	}
+	k, err := strconv.Atoi(f[0])
+	if err != nil || k < 0 {
+		return nil, false
+	}
+	f = f[1:]
+	var parts []core.Schedule
+	for i := 0; i < k; i++ {
+		if len(f) == 0 {
+			return nil, false
+		}
+		a, ok := arity[f[0]]
+		if !ok || len(f) < a {
+			return nil, false
+		}
+		p, ok := build(f[:a])
+		if !ok {
+			return nil, false
+		}
+		parts = append(parts, p)
+		f = f[a:]
+	}
+	return parts, len(f) == 0
+}
+
 func build(f []string) (core.Schedule, bool) {
 	num := func(s string) int64 { v, _ := strconv.ParseInt(s, 10, 64); return v }
 	switch f[0] {
+	case "list":
+		parts, ok := buildParts(f[1:])
+		if !ok {
+			return nil, false
+		}
+		return schedule.NewCompositeConf(schedule.CompositeConf{Nested: parts}), true
 	case "const":
 		if len(f) != 4 {
 			return nil, false
@@ -125,6 +173,44 @@ func runCase(c string) (res string) {
 	return fmt.Sprintf("%d %d %s %d %s", left, int64(fin.Sub(t0)), post, len(toks), ts)
 }
 
+// meetFirst is a real part of a list profile; the only addition is that the first g calls of Next
+// wait for each other (bounded) before going on into the real part.
+type meetFirst struct {
+	core.Schedule
+	g       int32
+	arrived atomic.Int32
+	all     chan struct{}
+}
+
+func (m *meetFirst) Next() (time.Time, bool) {
+	n := m.arrived.Add(1)
+	if n == m.g {
+		close(m.all)
+	}
+	if n <= m.g {
+		select {
+		case <-m.all:
+		case <-time.After(2 * time.Second):
+		}
+	}
+	return m.Schedule.Next()
+}
+
+func buildShared(inner []string, meet bool, g int) (core.Schedule, bool) {
+	if !meet {
+		return build(inner)
+	}
+	if inner[0] != "list" {
+		return nil, false
+	}
+	parts, ok := buildParts(inner[1:])
+	if !ok || len(parts) == 0 {
+		return nil, false
+	}
+	parts[0] = &meetFirst{Schedule: parts[0], g: int32(g), all: make(chan struct{})}
+	return schedule.NewCompositeConf(schedule.CompositeConf{Nested: parts}), true
+}
+
 // runConc: see the package comment.
 func runConc(c string) string {
 	f := strings.Split(c, " ")
@@ -133,7 +219,16 @@ func runConc(c string) string {
 	}
 	g, _ := strconv.Atoi(f[1])
 	rounds, _ := strconv.Atoi(f[2])
-	inner := strings.Join(f[3:], " ")
+	innerF := f[3:]
+	meet := false
+	if innerF[0] == "meet" {
+		meet = true
+		innerF = innerF[1:]
+		if len(innerF) == 0 {
+			return "unknown-case"
+		}
+	}
+	inner := strings.Join(innerF, " ")
 	seq := runCase(inner)
 	sf := strings.Split(seq, " ")
 	if len(sf) != 5 || g < 1 {
@@ -151,7 +246,7 @@ func runConc(c string) string {
 	if mp := runtime.GOMAXPROCS(0) - 1; g > mp && mp >= 1 {
 		g = mp
 	}
-	same, finOK, lo, hi := true, true, true, true
+	same, finOK, lo, hi, exh := true, true, true, true, true
 	detail := "-"
 	note := func(flag *bool, round int, what string) {
 		*flag = false
@@ -162,11 +257,13 @@ func runConc(c string) string {
 	type result struct {
 		toks       []time.Time
 		fin        time.Time
+		leftAtFin  int
+		again      string // "" or what the two calls after the first ok=false showed
 		afterFirst time.Time
 		panicked   bool
 	}
 	for round := 0; round < rounds; round++ {
-		s, ok := build(strings.Split(inner, " "))
+		s, ok := buildShared(innerF, meet, g)
 		if !ok {
 			return "unknown-case"
 		}
@@ -197,6 +294,15 @@ func runConc(c string) string {
 					}
 					if !ok {
 						res[w].fin = tx
+						res[w].leftAtFin = s.Left()
+						for i := 0; i < 2; i++ {
+							tx2, ok2 := s.Next()
+							if ok2 {
+								res[w].again = "an operation is handed out after the profile was reported exhausted"
+							} else if !tx2.Equal(tx) && res[w].again == "" {
+								res[w].again = fmt.Sprintf("the reported finish instant moved by %v", tx2.Sub(tx))
+							}
+						}
 						return
 					}
 					res[w].toks = append(res[w].toks, tx)
@@ -212,6 +318,8 @@ func runConc(c string) string {
 		before := time.Now() // the schedule cannot start earlier than this
 		release.Store(true)
 		wg.Wait()
+		// the finish instant of the profile: the latest instant reported with ok=false (a later
+		// part cannot finish before an earlier one); every other answer is compared with it
 		fin := res[0].fin
 		firstReturn := res[0].afterFirst
 		var all []time.Time
@@ -219,13 +327,26 @@ func runConc(c string) string {
 			if res[w].panicked {
 				return "panic"
 			}
-			if !res[w].fin.Equal(fin) {
-				note(&finOK, round, fmt.Sprintf("goroutines report finish instants %v apart", res[w].fin.Sub(fin)))
+			if res[w].fin.After(fin) {
+				fin = res[w].fin
 			}
 			if res[w].afterFirst.Before(firstReturn) {
 				firstReturn = res[w].afterFirst
 			}
 			all = append(all, res[w].toks...)
+		}
+		for w := range res {
+			if !res[w].fin.Equal(fin) {
+				note(&exh, round, fmt.Sprintf("a goroutine is told the profile is exhausted %v before the finish instant the others are given, Left() right after = %d",
+					fin.Sub(res[w].fin), res[w].leftAtFin))
+				note(&finOK, round, fmt.Sprintf("goroutines report finish instants %v apart", fin.Sub(res[w].fin)))
+			}
+			if res[w].leftAtFin != 0 {
+				note(&exh, round, fmt.Sprintf("Left() = %d right after Next reported the profile exhausted", res[w].leftAtFin))
+			}
+			if res[w].again != "" {
+				note(&exh, round, res[w].again)
+			}
 		}
 		if s.Left() != 0 {
 			note(&finOK, round, "Left() of the drained schedule is not 0")
@@ -256,7 +377,7 @@ func runConc(c string) string {
 			}
 		}
 	}
-	return fmt.Sprintf("%s %s %s %s %s %s", seq, vh.B(same), vh.B(finOK), vh.B(lo), vh.B(hi), detail)
+	return fmt.Sprintf("%s %s %s %s %s %s %s", seq, vh.B(same), vh.B(finOK), vh.B(lo), vh.B(hi), vh.B(exh), detail)
 }
 
 // ---- generator ---------------------------------------------------------------------
@@ -305,6 +426,66 @@ func pickRate(r *vh.Rand, m int64, secs float64, cap float64) int64 {
 	return lo + int64(r.U64()%uint64(lo))
 }
 
+// one part of a list profile holding at most about cap operations
+func genPart(r *vh.Rand, cap float64) string {
+	d := pickDur(r)
+	secs := float64(d) / 1e9
+	switch r.Intn(10) {
+	case 0, 1:
+		return fmt.Sprintf("const %d 1 %d", pickRate(r, 1, secs, cap), d)
+	case 2:
+		return fmt.Sprintf("const 0 1 %d", d) // a pause
+	case 3, 4, 5:
+		f, t := pickRate(r, 1, secs, cap), pickRate(r, 1, secs, cap)
+		if r.Chance(1, 4) {
+			f = 0
+		} else if r.Chance(1, 4) {
+			t = 0
+		}
+		return fmt.Sprintf("line %d %d 1 %d", f, t, d)
+	case 6, 7:
+		if r.Chance(1, 2) {
+			return fmt.Sprintf("once %d", r.Range(1, 3))
+		}
+		return fmt.Sprintf("once %d", r.Range(1, int(cap)))
+	}
+	f := pickRate(r, 1, secs, cap/4)
+	st := int64(r.Range(1, 3))
+	return fmt.Sprintf("step %d %d 1 %d %d", f, f+st*int64(r.Range(0, 2))+int64(r.Intn(int(st))), st, d)
+}
+
+// a part that holds fewer operations than g consumers (possibly none)
+func genSmallPart(r *vh.Rand, g int) string {
+	switch r.Intn(6) {
+	case 0:
+		return fmt.Sprintf("once %d", r.Range(1, g-1))
+	case 1:
+		return "once 1"
+	case 2:
+		return []string{"const 1 1 1000000000", "const 3 1 500000000", "const 1 1 1999999999", "const 2 1 750000000"}[r.Intn(4)] // one operation
+	case 3:
+		return fmt.Sprintf("const 0 1 %d", pickDur(r)) // a pause
+	case 4:
+		return []string{"line 0 2 1 1000000000", "line 2 0 1 1500000000", "line 1 1 1 1000000000"}[r.Intn(3)] // one operation
+	}
+	return []string{"step 0 1 1 1 1000000000", "step 1 1 1 1 1500000000", "step 0 2 1 2 500000000"}[r.Intn(3)] // levels with 0 / 1 operations
+}
+
+func genPause(r *vh.Rand) string {
+	d := pickDur(r)
+	switch r.Intn(4) {
+	case 0:
+		return fmt.Sprintf("line 0 0 1 %d", d)
+	case 1:
+		return fmt.Sprintf("step 0 0 1 1 %d", d)
+	}
+	return fmt.Sprintf("const 0 1 %d", d)
+}
+
+func listCase(parts []string) string {
+	return strings.TrimSpace(fmt.Sprintf("list %d %s", len(parts), strings.Join(parts, " ")))
+}
+
 func gen(r *vh.Rand, tier string) []string {
 	n := 420
 	cap := 1500.0
@@ -337,6 +518,55 @@ func gen(r *vh.Rand, tier string) []string {
 	for _, in := range []string{"const 1000 1 1000000000", "const 37 10 2500000000", "line 0 400 1 500000000", "line 300 20 1 1500000000",
 		"line 7 7 1 3000000000", "once 64", "once 5", "step 100 300 1 100 250000000", "step 0 40 1 20 1500000000", "const 0 1 1000000"} {
 		out = append(out, fmt.Sprintf("conc %d %d %s", []int{2, 4, 8}[r.Intn(3)], rounds, in))
+	}
+	// list profiles (`rps: [...]`) and low step levels shared by G consumers: the hand-over from one part to
+	// the next while several consumers see the current part end together, incl. parts that hold fewer
+	// operations than there are consumers (pauses, once parts, 1 rps levels)
+	for _, in := range []string{"step 0 2 1 1 1000000000", "step 1 3 1 1 1000000000", "step 0 6 1 2 500000000",
+		"list 3 const 0 1 1000000000 once 1 const 10 1 1000000000", "list 4 const 20 1 1000000000 once 1 const 0 1 500000000 line 0 20 1 1500000000",
+		"list 3 once 2 const 1 1 1000000000 const 1 1 1000000000"} {
+		out = append(out, fmt.Sprintf("conc %d %d %s", []int{3, 4, 8}[r.Intn(3)], rounds, in))
+		if strings.HasPrefix(in, "list") {
+			out = append(out, fmt.Sprintf("conc %d %d meet %s", []int{2, 4, 8}[r.Intn(3)], rounds, in))
+		}
+	}
+	for i := 0; i < n/35; i++ {
+		g := []int{2, 3, 4, 6, 8}[r.Intn(5)]
+		var parts []string
+		meet := ""
+		if r.Chance(1, 2) {
+			// starts with a pause: every consumer's first Next finds the first part over
+			meet = "meet "
+			parts = append(parts, genPause(r), genSmallPart(r, g))
+		} else {
+			parts = append(parts, genPart(r, 40), genSmallPart(r, g))
+			if r.Chance(1, 3) {
+				meet = "meet "
+			}
+		}
+		for k := r.Intn(3); k > 0; k-- {
+			if r.Chance(1, 3) {
+				parts = append(parts, genSmallPart(r, g))
+			} else {
+				parts = append(parts, genPart(r, 40))
+			}
+		}
+		if r.Chance(2, 3) {
+			parts = append(parts, genPart(r, 40)) // something is left after the small parts
+		}
+		out = append(out, fmt.Sprintf("conc %d %d %s%s", g, rounds, meet, listCase(parts)))
+	}
+	// list profiles drained by one consumer (judged part by part against the integral)
+	for i := 0; i < n/10; i++ {
+		var parts []string
+		for k := r.Range(0, 5); k > 0; k-- {
+			if r.Chance(1, 4) {
+				parts = append(parts, genSmallPart(r, 3))
+			} else {
+				parts = append(parts, genPart(r, cap/4))
+			}
+		}
+		out = append(out, listCase(parts))
 	}
 	for i := 0; i < n/60; i++ {
 		d := pickDur(r)
